@@ -136,4 +136,23 @@ theorem skeletons_found :
     Gen.VxfwCases.skeletons.all (fun x => !x.2.contains "?missing") = true ∧
     Gen.VxfwCases.skeletons.length = 10 := by decide
 
+/-! ### `App.Run` outside the event switch (round 4) -/
+
+/-- **The frame step** (the `time.After` arm of `Run`'s select) does, in this order, what `Model.Vxfw.eRunFrame`
+transcribes: `a.redraw = false`, `a.layout`, `mh.update` (hover diff against the NEW tree, before anything is
+rendered), a second `a.redraw = false` + `a.layout` (inside `if a.redraw`), `render` (which sorts the children),
+`a.refresh = false`, `a.debug = false`, `a.fh.updatePath` (path from the rendered, sorted tree), and LAST
+`mh.lastFrame = s`.  Other calls in the arm (window, cursor, `vx.Render`) are not part of the tie. -/
+theorem run_frame_order :
+    Gen.VxfwCases.runFrameActs.filter (fun x => ["set redraw", "call layout", "call update", "call render", "set refresh",
+        "set debug", "call updatePath", "set lastFrame"].contains x) =
+      ["set redraw", "call layout", "call update", "set redraw", "call layout", "call render", "set refresh", "set debug",
+       "call updatePath", "set lastFrame"] := by decide
+
+/-- **Before the loop** `Run` initialises the focus handler, dispatches `Init{}` through it, and lays out once
+(`Model.Vxfw.eRunInit`; the mouse handler's first `lastFrame` is that layout, unrendered). -/
+theorem run_prologue_order :
+    Gen.VxfwCases.runPrologueActs.filter (fun x => ["set fh", "call handleEvent", "call layout", "call update", "call updatePath"].contains x) =
+      ["set fh", "call handleEvent", "call layout"] := by decide
+
 end VaxisModel.Props.C15Gen
